@@ -81,9 +81,10 @@ type ContractFile struct {
 	Contracts []*Contract
 	Lemmas    []*LemmaSpec
 	Ghosts    []string
+	Types     []string // "NAME = go type expression" (names for type literals, usable where a type name is expected)
 }
 
-var keywordRe = regexp.MustCompile(`^(func|spec|smt|property|requires|ensures|loop|modifies|option|lemma|end|ghost|param)\b`)
+var keywordRe = regexp.MustCompile(`^(func|spec|smt|property|requires|ensures|loop|modifies|option|lemma|end|ghost|param|type)\b`)
 var labelRe = regexp.MustCompile(`^\[([A-Za-z0-9_.\-!]+)\]\s*`)
 
 func parseContractFile(path, pkgPath string) (*ContractFile, error) {
@@ -177,6 +178,8 @@ func parseContractFile(path, pkgPath string) (*ContractFile, error) {
 			cf.SMT = append(cf.SMT, rest)
 		case "ghost":
 			cf.Ghosts = append(cf.Ghosts, rest)
+		case "type":
+			cf.Types = append(cf.Types, rest)
 		case "spec":
 			sf, err := parseSpecFn(rest, path, s.line)
 			if err != nil {
